@@ -240,6 +240,25 @@ def run_recipe(C, drv, rc):
             else:
                 a.flag = False
         check_tree(C, drv, root, 'mirror', recipe=rc)
+    elif rc['kind'] == 'pruned':
+        # one argument of a binary node is taken away (`node.left = None` / `node.right = None`): what remains is
+        # still a tree (a node whose only child hangs on the right, or a binary operator with its first argument only),
+        # and "every node exactly once, root-left-right" is stated for every tree
+        root = T.build(_tup(rc['shape']))
+        bins = [n for n in T.walk(root)[0] if n.left is not None and n.right is not None]
+        if not bins:
+            return
+        n_ = bins[rc['at'] % len(bins)]
+        if rc.get('measure_first'):
+            _ = (root.n_nodes, root.n_leaves, root.min_depth, root.max_depth, root.pre_order, root.post_order)
+        if rc['side'] == 'left':
+            n_.left = None
+        else:
+            n_.right = None
+        check_tree(C, drv, root, 'pruned-' + rc['side'], recipe=rc)
+        for k_, nd_ in enumerate(T.walk(root)[0]):
+            if nd_.parent is not None and nd_.type == 'FUNCTION':
+                check_part(C, nd_, 'subtree', dict(rc, sub=k_))
     elif rc['kind'] == 'copies':
         import gc, pickle, random as _random
         r_ = _random.Random(rc['seed'])
@@ -392,6 +411,15 @@ def check(ctx):
         mshapes = [sh for sh in T.shapes_upto(3) if 'B' in str(sh)]
         for k, order in enumerate(_it.permutations(['left', 'right', 'flag-b', 'flag-a'])):
             run_recipe(C, drv, dict(kind='mirror', shape=C.rng.choice(mshapes), at=C.rng.randrange(8), order=list(order), seed=k, measure_first=bool(k % 2)))
+        # one argument of a binary node pruned away: nodes with a right child only / binary operators with one argument
+        # (every shape to depth 2, every binary node, either side; deeper shapes sampled)
+        for s_ in T.shapes_upto(2):
+            for at in range(sum(1 for n_ in T.walk(T.build(s_))[0] if n_.right is not None)):
+                for side in ('left', 'right'):
+                    run_recipe(C, drv, dict(kind='pruned', shape=s_, at=at, side=side, measure_first=bool(at % 2)))
+        for k in range(12 if ctx['tier'] == 'quick' else 200):
+            run_recipe(C, drv, dict(kind='pruned', shape=C.rng.choice(mshapes), at=C.rng.randrange(8),
+                                    side=('left', 'right')[k % 2], measure_first=bool(k % 3)))
         # trees produced by the GP operators from parents that had been traversed before
         for k in range(40 if ctx['tier'] == 'quick' else 400):
             run_recipe(C, drv, dict(kind='gp', fa=C.rng.choice(shapes2), mo=C.rng.choice(shapes2),
